@@ -488,3 +488,110 @@ def rule_mode_arith(ctx: Ctx, prog: Program) -> None:
                                       "`bound - k` instead")
     ctx.ok("R-MODE-ARITH", f"no test of an unsigned difference against a negative value ({len(uns)} unsigned engine arrays, {n_diff} differences stored)",
            sample={"unsigned_arrays": uns})
+
+
+# ------------------------------------------------------------------------------------------ R-SWALLOWED-RAISE
+def by_address_closure(prog: Program) -> Dict[str, Tuple[FuncInfo, Dict[str, Tuple[str, ...]]]]:
+    """fq -> (function, {registry it is reached from: call chain}) for every function that compiled code reaches only through a function
+    pointer: the members of the registries whose addresses are taken (build_function_address_list) and everything they call directly."""
+    out: Dict[str, Tuple[FuncInfo, Dict[str, Tuple[str, ...]]]] = {}
+    for ty, reg in sorted(prog.dispatch_types().items()):
+        r = prog.registry(reg)
+        work: List[Tuple[FuncInfo, Tuple[str, ...]]] = [(ent, (ent.name,)) for ent in r.entries if isinstance(ent, FuncInfo)]
+        seen: Set[str] = set()
+        while work:
+            f, chain = work.pop(0)
+            if f.fq in seen:
+                continue
+            seen.add(f.fq)
+            out.setdefault(f.fq, (f, {}))[1][reg] = chain
+            for n in ast.walk(f.node):
+                if isinstance(n, ast.Call):
+                    rr = None
+                    if isinstance(n.func, ast.Name):
+                        rr = prog.resolve(f.module, n.func.id)
+                    elif isinstance(n.func, ast.Attribute) and isinstance(n.func.value, ast.Name):
+                        rm = prog.resolve(f.module, n.func.value.id)
+                        if rm and rm[0] == "module":
+                            rr = prog.resolve(rm[1], n.func.attr)
+                    if rr and rr[0] == "func" and rr[1].fq not in seen:
+                        work.append((rr[1], chain + (rr[1].name,)))
+    return out
+
+
+def _dead_stack_full_raise(ctx: Ctx, prog: Program, f: FuncInfo) -> bool:
+    """A raise in the push primitive that fires only when level T+1 does not exist is unreachable when every way to the primitive is
+    guarded: solve_one ensures top + (largest push) < len before the value-heuristic call, the shaving algorithm ensures top + 1 < len
+    before a probe, and nothing else calls the primitive."""
+    if f.name != "cp_put" or not f.module.endswith("choice_points"):
+        return False
+    c = getattr(prog, "_dead_stack_full_raise", None)
+    if c is not None:
+        return c
+    from . import capacity, search
+    res = False
+    try:
+        it = Interp(prog)
+        paths = it.run(f)
+        T1 = Aff.atom(("init", f.params[2], (K(0),))) + ONE
+        ln = Aff.atom(("len", f.params[0], ()))
+        raising = [r for r in paths if r.outcome == "raise"]
+        only_full = bool(raising) and all(r.state.facts.decide(cmp_cond(">=", T1, ln)) is True for r in raising)
+        # who calls the primitive
+        dom = {e.fq for e in prog.registry("DOM_HEURISTIC_FCTS").entries if isinstance(e, FuncInfo)}
+        callers = set()
+        for g in prog.all_functions():
+            for n in ast.walk(g.node):
+                if isinstance(n, ast.Call) and isinstance(n.func, ast.Name) and n.func.id == f.name:
+                    r = prog.resolve(g.module, f.name)
+                    if r and r[0] == "func" and r[1].fq == f.fq:
+                        callers.add(g.fq)
+        clo = by_address_closure(prog)
+        known = all(c_ in clo and all(reg == "DOM_HEURISTIC_FCTS" or (reg == "CONSISTENCY_ALG_FCTS" and "shave_bound" in chain)
+                                       for reg, chain in clo[c_][1].items()) for c_ in callers)
+        if only_full and known:
+            sc = Ctx(prog, "C19", ctx.tier, ctx.repo)
+            search.rule_solve_one(sc, prog, want=("R-CAPACITY",))
+            capacity.rule_probe_guard(sc, prog)
+            res = not any(x.rule == "R-CAPACITY" for x in sc.findings) and not any(fo < mi for _, fo, mi in sc.floors)
+    except AnalysisError:
+        res = False
+    prog._dead_stack_full_raise = res  # type: ignore[attr-defined]
+    return res
+
+
+def rule_swallowed_raise(ctx: Ctx, prog: Program) -> None:
+    """Compiled code calls constraints, heuristics and consistency algorithms through function pointers (function_from_address).  Numba
+    cannot propagate an exception out of such a call: it prints 'Exception ignored', the callee returns an arbitrary value and the
+    caller carries on.  A check that raises behind a pointer therefore reports nothing in compiled mode (and behaves differently when
+    interpreted); where it guards the choice-point stack, the push is skipped, nothing changes and the search loop asks for the same
+    decision for ever.  Rule: no `raise` statement in a registry member or in anything it calls directly or indirectly, except a check of the push
+    primitive that the guards of all its callers make unreachable.  (`assert` statements are listed as undecided.)"""
+    ctx.rule("R-SWALLOWED-RAISE")
+    clo = by_address_closure(prog)
+    ctx.floor("R-SWALLOWED-RAISE:functions-behind-pointers", len(clo), 30)
+    n_bad = 0
+    for fq, (f, regs) in sorted(clo.items()):
+        ctx.fn(fq)
+        for n in ast.walk(f.node):
+            if isinstance(n, ast.Assert):
+                # an assertion states an invariant: it is dead code when the invariant holds, which this rule cannot decide
+                ctx.undecided_site("R-SWALLOWED-RAISE", f"{f.qualname}: `{ast.unparse(n)[:60]}`",
+                                   "an assert behind a function pointer is discarded by compiled code if it ever fails; whether it can fail is not decided")
+                continue
+            if isinstance(n, ast.Raise):
+                if _dead_stack_full_raise(ctx, prog, f):
+                    ctx.ok("R-SWALLOWED-RAISE", f"{f.qualname}: raises only on a full stack, which the guards of solve_one and of the shaving probe exclude "
+                           "(unreachable defensive check)")
+                    continue
+                what = ast.unparse(n).split("\n")[0][:80]
+                for reg, chain in sorted(regs.items()):
+                    n_bad += 1
+                    ctx.violation("R-SWALLOWED-RAISE", f.path, f.qualname, f"raise:{reg}", f"{f.path}:{n.lineno}",
+                                  f"`{what}` in {f.qualname} is reached from compiled code only through a function pointer ({reg}: {' -> '.join(chain)}): "
+                                  "an exception raised there is discarded ('Exception ignored'), the call returns an arbitrary value and the engine "
+                                  "carries on -- the error is not reported, compiled and interpreted mode diverge, and a stack-capacity check placed "
+                                  "there leaves the state unchanged so that solve_one asks for the same decision for ever")
+    if not n_bad:
+        ctx.ok("R-SWALLOWED-RAISE", "no raise statement in any function reached through a function pointer",
+               sample={"functions": len(clo), "registries": sorted(set(prog.dispatch_types().values()))})
